@@ -25,6 +25,11 @@ Ob(e) == [t |-> "obj", e |-> e]
 R12 == [t |-> "range", a |-> Lit(IntV(1)), b |-> Lit(IntV(2))]
 FLI == Ob([t |-> "prop", e |-> Var(B_forloop), name |-> B_index])
 
+INC == <<105, 46, 108, 105, 113>>                       \* i.liq, in the engine's cache
+IncBody == <<T(<<60>>), Ob(Var(X)), T(<<44>>), Ob(Var(Y)), T(<<62>>)>>
+Inc == [t |-> "include", e |-> Lit(Str(INC))]
+TopPath == <<116, 46, 108, 105, 113>>
+Cx12 == [Cx0 EXCEPT !.path = TopPath, !.cache = << <<INC, IncBody>> >>]
 Stmts == <<
   (* 1 *) <<[t |-> "assign", name |-> X, e |-> Lit(IntV(1))]>>,
   (* 2 *) <<[t |-> "assign", name |-> X, e |-> Lit(Str(<<115>>))]>>,
@@ -52,7 +57,11 @@ Stmts == <<
           <<[t |-> "capture", name |-> <<122>>, body |->
                <<[t |-> "for", tag |-> "for", var |-> <<105>>, coll |-> R12, body |->
                     <<[t |-> "if", branches |-> <<[c |-> [t |-> "prop", e |-> Var(B_forloop), name |-> B_last],
-                                                   body |-> <<[t |-> "assign", name |-> Y, e |-> Var(<<105>>)]>>]>>]>>]>>]>>
+                                                   body |-> <<[t |-> "assign", name |-> Y, e |-> Var(<<105>>)]>>]>>]>>]>>]>>,
+  (* 14: an included template sees the variables as they are when it is included - in every iteration of a loop anew *)
+          <<[t |-> "for", tag |-> "for", var |-> X, coll |-> R12, body |-> <<[t |-> "assign", name |-> Y, e |-> Var(X)], Inc>>]>>,
+  (* 15: ... and in straight-line code (with 14, or twice: several include tags of the same file in one template) *)
+          <<Inc>>
 >>
 NS == Len(Stmts)
 
@@ -84,11 +93,13 @@ Decl(ix, s) ==
                    [] i = 11 -> [s EXCEPT !.out = @ \o <<49>> \o <<102, 97, 108, 115, 101>> \o <<50, 59>>]       \* 1 false 2 ;
                    [] i = 12 -> [s EXCEPT !.x = Str(<<99, 55>>), !.y = IntV(7), !.out = @ \o <<105>>]
                    [] i = 13 -> [s EXCEPT !.y = IntV(2)]
+                   [] i = 14 -> [s EXCEPT !.y = IntV(2), !.out = @ \o <<60, 49, 44, 49, 62, 60, 50, 44, 50, 62>>]
+                   [] i = 15 -> [s EXCEPT !.out = @ \o <<60>> \o Tx(s.x) \o <<44>> \o Tx(s.y) \o <<62>>]
        IN  Decl(Tail(ix), s2)
 DeclOut(ix) == Decl(ix \o <<6>>, [x |-> Nil, y |-> Nil, fl |-> Nil, out |-> <<>>]).out
 
-Init == \E ix \in Programs : p = ix /\ st = InitSt(ProgOf(ix), EnvOf(<<>>), Sink0, Cx0)
-Next == st.status = "run" /\ st' = Step(Cx0, st) /\ p' = p
+Init == \E ix \in Programs : p = ix /\ st = InitSt(ProgOf(ix), EnvOf(<<>>), Sink0, Cx12)
+Next == st.status = "run" /\ st' = Step(Cx12, st) /\ p' = p
 
 Terminates == st.status \in {"run", "ok"}
 OutputLaw == st.status = "ok" => st.sink.acc = DeclOut(p)
@@ -96,16 +107,18 @@ OutputLaw == st.status = "ok" => st.sink.acc = DeclOut(p)
 LoopFrames == {j \in 1..Len(st.k) : st.k[j].f = "loop"}
 ForloopRestored == LoopFrames = {} => (IsNil(Lookup(st.env, B_forloop)) \/ Same(Lookup(st.env, B_forloop), Str(<<102>>)))
 \* captured text is not output: no step taken while a capture is open changes what the sink has accepted
-CaptureSilent == [][Len(st.ws) > 1 => st'.sink = st.sink]_vars
+InCapture(s) == \E j \in 1..Len(s.k) : s.k[j].f = "seq" /\ s.k[j].end = "capture"
+CaptureSilent == [][(InCapture(st) /\ InCapture(st')) => st'.sink = st.sink]_vars
 \* wrapping the program in capture and printing the variable renders the same
-CaptureLaw == st.status = "ok" => Render(Cx0, Wrapped(p), EnvOf(<<>>)).out = st.sink.acc
+CaptureLaw == st.status = "ok" => Render(Cx12, Wrapped(p), EnvOf(<<>>)).out = st.sink.acc
 
 IdOf(ix) == "p" \o ToString(ix)
+Where == [path |-> TopPath, usedir |-> TRUE, cache |-> << <<INC, IncBody>> >>]
 EmitCase == st.status # "run" =>
-              /\ PrintT(ToJson([id |-> IdOf(p), kind |-> "render", prog |-> ProgOf(p), env |-> <<>>]))
-              /\ PrintT(ToJson([id |-> "w" \o IdOf(p), kind |-> "render", prog |-> Wrapped(p), env |-> <<>>]))
+              /\ PrintT(ToJson([id |-> IdOf(p), kind |-> "render", prog |-> ProgOf(p), env |-> <<>>] @@ Where))
+              /\ PrintT(ToJson([id |-> "w" \o IdOf(p), kind |-> "render", prog |-> Wrapped(p), env |-> <<>>] @@ Where))
               \* the same program over outer bindings of the names the loops shadow, held as Drops; the harness puts
               \* its probe tag around every loop: after the loop the name is bound to the very value it was bound to before
               /\ PrintT(ToJson([id |-> "e" \o IdOf(p), kind |-> "render", prog |-> ProgOf(p), snaploops |-> TRUE,
-                                env |-> << <<X, IntV(5)>>, <<Y, Str(<<113>>)>> >>, repr |-> ("x-1" :> "drop") @@ ("y?" :> "drop")]))
+                                env |-> << <<X, IntV(5)>>, <<Y, Str(<<113>>)>> >>, repr |-> ("x-1" :> "drop") @@ ("y?" :> "drop")] @@ Where))
 =============================================================================
